@@ -30,6 +30,8 @@ type lfut struct {
 	done bool
 	err  string
 	idx  uint64
+	cfg  *raft.Configuration // cfg: what a successful membership future handed to the caller
+	scribbled bool
 }
 
 func (f *lfut) snapshot() (bool, string, uint64) {
@@ -234,7 +236,8 @@ func TestE3Leader(t *testing.T) {
 						if res.Error() != nil {
 							f.err = res.Error().Error()
 						} else {
-							f.idx = res.Success().Index
+							c := res.Success()
+							f.idx, f.cfg = c.Index, &c
 						}
 						f.mu.Unlock()
 					}(newFut)
@@ -251,7 +254,8 @@ func TestE3Leader(t *testing.T) {
 						if res.Error() != nil {
 							f.err = res.Error().Error()
 						} else {
-							f.idx = res.Success().Index
+							c := res.Success()
+							f.idx, f.cfg = c.Index, &c
 						}
 						f.mu.Unlock()
 					}(newFut)
@@ -293,6 +297,18 @@ func TestE3Leader(t *testing.T) {
 					line = fmt.Sprintf("AEREPLY | %d | %s | peer=%d round=%s | %s | %s", now, mnode, c.To, round, aeReqStr(c.AE), respS)
 				}
 				synctest.Wait()
+				// a caller owns what the API hands it: scribbling over a returned configuration (here: emptied, voter
+				// bits flipped, a stranger added) must not reach the node — the comparison below would show it
+				if c := node.R.Configuration(); c.Members != nil {
+					for id := range c.Members {
+						delete(c.Members, id)
+					}
+					for id := range c.IsVoter {
+						c.IsVoter[id] = !c.IsVoter[id]
+					}
+					c.Members["99"], c.IsVoter["99"] = "scribble", true
+					rep.Hit("returned-configuration-scribbled")
+				}
 				// ---- model: the section, then the loops its signals wake, in every order the scheduler may pick
 				sec := ask(line)
 				submitOut := ""
@@ -413,6 +429,42 @@ func TestE3Leader(t *testing.T) {
 						f.markSeen()
 						rep.Hit("future:" + f.kind + map[bool]string{true: ":error", false: ":ok"}[ferr != ""])
 					}
+				}
+				// the configuration a successful membership future delivers belongs to the caller: modifying it
+				// (voter bits flipped, a stranger added) must not change the node's own configuration
+				corrupted := false
+				for _, f := range futs {
+					f.mu.Lock()
+					c, was := f.cfg, f.scribbled
+					f.scribbled = f.scribbled || c != nil
+					f.mu.Unlock()
+					if c == nil || was {
+						continue
+					}
+					cb := node.R.Configuration()
+					beforeC := CfgFromRaft(&cb).String()
+					for id := range c.IsVoter {
+						c.IsVoter[id] = !c.IsVoter[id]
+					}
+					if c.Members != nil {
+						c.Members["99"] = "scribble"
+					}
+					ca := node.R.Configuration()
+					afterC := CfgFromRaft(&ca).String()
+					rep.Hit("future-configuration-scribbled")
+					if beforeC != afterC {
+						corrupted = true
+						rep.Add(Finding{Kind: "oracle", Property: "C09", Case: line,
+							Oracle: "a caller that modifies the configuration a successful membership future handed it changes the node's own configuration: the result shares its maps with the node (configuration in force no longer the one in the log; voter bits decide quorums)",
+							Impl:   fmt.Sprintf("node configuration before the caller touched its copy: %s, after: %s", beforeC, afterC),
+							Signature: map[string]string{"oracle": "returned-configuration-aliases-node"}})
+					}
+				}
+				if corrupted {
+					for c := range outstanding {
+						s.Fail(c)
+					}
+					break
 				}
 			}
 			for c := range outstanding {
